@@ -419,6 +419,8 @@ class ApplicationJobs:
         # attributes
         self.planned_jobs: ApplicationJobs.PlannedJobs = jobs
         self.current_jobs: ApplicationJobs.CommandList = []
+        # set while a group of commands is being processed
+        self.processing: bool = False
 
     # miscellaneous methods
     def __repr__(self):
@@ -499,7 +501,7 @@ class ApplicationJobs:
         """
         self.logger.trace(f'ApplicationJobs.in_progress: planned_jobs={self.planned_jobs}'
                           f' current_jobs={self.current_jobs}')
-        return len(self.planned_jobs) > 0 or len(self.current_jobs) > 0
+        return self.processing or len(self.planned_jobs) > 0 or len(self.current_jobs) > 0
 
     def before(self) -> None:
         """ Special processing to be done before command sequences start.
@@ -521,9 +523,16 @@ class ApplicationJobs:
             # trigger application jobs
             # do NOT use a list comprehension as pending requests will not be considered in instance load
             # process the jobs one by one and insert them in current_jobs asap
-            for command in group:
-                if self.process_job(command):
-                    self.current_jobs.append(command)
+            # NOTE: a command that fails at once (no resource available) generates a forced process event that
+            #       re-enters the Commander: the application job is still in progress until the whole group is processed
+            #       and the consequences of the failure (starting failure strategy) are set
+            self.processing = True
+            try:
+                for command in group:
+                    if self.process_job(command):
+                        self.current_jobs.append(command)
+            finally:
+                self.processing = False
             self.logger.trace(f'ApplicationJobs.next: current_jobs={self.current_jobs}')
             # recursive call in the event where there's already nothing left to do
             self.next()
